@@ -264,6 +264,8 @@ class Exec(Ops):
     for v in self.spec.module_globals.values():
       if isinstance(v, UFn) and v.name == name:
         return v
+      if isinstance(v, Sort) and v.name == name:
+        return v
     raise KeyError(name)
 
   # ---- expressions ---------------------------------------------------------------------
@@ -491,6 +493,9 @@ class Exec(Ops):
     for e in n.elts:
       if isinstance(e, ast.Starred):
         v = self.deref(self.eval(e.value, env))
+        if isinstance(v, SV) and getattr(v.sort, 'star_opaque', False):
+          out.append(StarOf(v))  # (*path, 'key'): kept symbolic, consumed by a summary
+          continue
         if not isinstance(v, PyTuple):
           raise OutsideSubset('star-unpacking of a symbolic-length sequence')
         out.extend(v)
@@ -576,6 +581,10 @@ class Exec(Ops):
 
   def getitem(self, base, idx):
     base, idx = self.deref(base), self.deref(idx)
+    if isinstance(base, _ObjCase) and base.ctor.tuple_like and isinstance(idx, int):
+      fn = base.ctor.fields[idx][0]
+      U = base.v.sort
+      return SV(U.field_sort(base.ctor.name, fn), U.acc(base.ctor.name, fn, base.v.t))
     if isinstance(base, PyTuple):
       if isinstance(idx, int):
         return base[idx]
@@ -762,6 +771,14 @@ class Exec(Ops):
         self.oblige(vv.sort.len(vv.t) == n, 'safety:unpack')
         self.assume(vv.sort.len(vv.t) == n)
         vv = PyTuple(SV(vv.sort.elem, vv.sort.get(vv.t, i)) for i in range(n))
+      if isinstance(vv, SV) and isinstance(vv.sort, Union):
+        tl = [c for c in vv.sort.ctors.values() if c.tuple_like and len(c.fields) == len(tg.elts)]
+        if tl:
+          c = tl[0]
+          if len(vv.sort.ctors) > 1:
+            self.oblige(vv.sort.is_(c.name, vv.t), 'safety:unpack')
+            self.assume(vv.sort.is_(c.name, vv.t))
+          vv = PyTuple(SV(vv.sort.field_sort(c.name, fn), vv.sort.acc(c.name, fn, vv.t)) for fn, _ in c.fields)
       if not isinstance(vv, PyTuple):
         raise OutsideSubset(f'unpacking of {vv!r}')
       if len(vv) != len(tg.elts):
@@ -797,6 +814,8 @@ class Exec(Ops):
 
   def setitem(self, base, idx, v):
     cur = self.deref(base)
+    if isinstance(cur, SV) and getattr(cur.sort, 'setitem', None):
+      return cur.sort.setitem(self, cur, idx, v)
     if isinstance(cur, SV) and isinstance(cur.sort, MapOf):
       self.mutate(base, self.map_set(cur, idx, self.escape(v)))
       return
